@@ -229,7 +229,7 @@ func TestChoreo(t *testing.T) {
 				s, r := d.GetHTTPCache(key).Get()
 				results[0] <- getResult{s, ridOf(r)}
 			}()
-			settle() // parked behind the fetch
+			settle()                    // parked behind the fetch
 			held := d.GetHTTPCache(key) // looked up, Get not called yet
 			d.RemoveHTTPCache(key)      // the purge lands in between
 			go func() {
